@@ -1,9 +1,10 @@
 #!/bin/bash
-# builds the OCaml model driver from the extracted model (ocaml/extracted/model.ml)
+# builds the OCaml model driver: extracted model + drv_util + every drv_<family>.ml + drv_main
 set -e
 cd "$(dirname "$0")"
 mkdir -p _build
-cp extracted/model.ml extracted/model.mli driver.ml _build/
+rm -f _build/*.ml _build/*.mli
+cp extracted/model.ml extracted/model.mli drv_*.ml _build/
 cd _build
-ocamlfind ocamlopt -O3 -unboxed-types 2>/dev/null >/dev/null || true
-ocamlfind ocamlopt -w -a -o driver model.mli model.ml driver.ml
+FAMS=$(ls drv_*.ml | grep -v -e drv_util.ml -e drv_main.ml | sort)
+ocamlfind ocamlopt -w -a -o driver model.mli model.ml drv_util.ml $FAMS drv_main.ml
